@@ -39,3 +39,9 @@ def run(ctx):
   names = {ctx.facts.bodies[p].n for p in pred}
   for e in REQUIRED_ENTRIES:
     ctx.ob('R31.1', e, 'parser body is inside the analysed closure', e in names, 'not reached from the entry points', nontrivial=False)
+
+
+# sensitivity pack (thorough tier): each seeded edit must be reported by the named rule instance
+MUTANTS = [{'name': 'degree-mul-unchecked-again', 'file': 'crates/ordinals/src/sat.rs', 'old': '    let cycle_start_epoch = cycle_number\n      .checked_mul(CYCLE_EPOCHS)\n      .ok_or_else(|| ErrorKind::IntegerRange.error(degree))?;', 'new': '    let cycle_start_epoch = cycle_number * CYCLE_EPOCHS;', 'expect': ('R31.1', 'from_degree', 'arith:Mul(')},
+           {'name': 'nan-guard-dropped', 'file': 'crates/ordinals/src/sat.rs', 'old': 'if !percentile.is_finite() || percentile < 0.0 {', 'new': 'if percentile < 0.0 {', 'expect': ('R31.1', 'from_percentile', 'fcast:')},
+           {'name': 'inscription-id-length-guard-dropped', 'file': 'src/inscriptions/inscription_id.rs', 'old': '    if s.len() < MIN_LEN {\n      return Err(ParseError::Length(s.len()));\n    }\n', 'new': '', 'expect': ('R31.1', 'InscriptionId as std::str::FromStr', 'index-call:index(s,RangeTo')}]
